@@ -137,7 +137,8 @@ Definition platform_check : bool :=
   lmem base (p_regs P) && forallb reg_ok (p_regs P)
   && forallb (fun m => mem m base && unamb P base m) (p_login P)
   && forallb (neutral P) (p_open P)
-  && p_reset_first P.
+  && p_reset_first P
+  && p_reg_keeps P.
 
 (* ---------------------------------------------------------------- invariant, specification *)
 Definition belief_sound (s : state) : Prop := belief s = None \/ belief s = Some (mode s).
@@ -155,7 +156,10 @@ Definition op_neutral (o : op) : bool :=
   | _ => true
   end.
 
-(* the finding's region: the belief is (re)set to DUMMY, or a sibling level appears, while the prompt is shared *)
+(* the finding's region: the belief is (re)set to DUMMY while the prompt is shared, or a sibling level is registered
+   while the belief IS DUMMY and the new level shares the prompt the device shows.  Registering does not touch the
+   belief (REGISTER fact p_reg_keeps, part of platform_check): with the belief set, a session may be registered
+   wherever the device is — in exec, privilege_exec, configuration or inside another session (register_safe_believed). *)
 Definition op_safe (s : state) (o : op) : bool :=
   match o with
   | OSetGeneric true => unamb P (reg s) (mode s)
@@ -205,12 +209,16 @@ Lemma chk_parts :
   /\ forallb (neutral P) (p_open P) = true.
 Proof.
   unfold platform_check in Hchk. repeat rewrite andb_true_iff in Hchk.
-  destruct Hchk as [[[[H1 H2] H3] H4] _]. repeat split; auto.
+  destruct Hchk as [[[[[H1 H2] H3] H4] _] _]. repeat split; auto.
   - now apply lmem_In.
   - intros r Hr. rewrite forallb_forall in H2. auto.
   - rewrite forallb_forall in H3. apply H3 in H. apply andb_true_iff in H. apply mem_In. tauto.
   - rewrite forallb_forall in H3. apply H3 in H. apply andb_true_iff in H. tauto.
 Qed.
+
+(* the REGISTER fact: registering a configuration session does not touch the belief *)
+Lemma chk_reg_keeps : p_reg_keeps P = true.
+Proof. unfold platform_check in Hchk. apply andb_true_iff in Hchk. tauto. Qed.
 
 Lemma reg_parts : forall r, In r (p_regs P) ->
   In (p_default P) r /\ In (p_cfg P) r
@@ -377,13 +385,37 @@ Proof.
   - (* register_configuration_session *)
     unfold op_safe in Hsafe. destruct (mem k (reg s)) eqn:E1; [inv_pair; split; [repeat split; auto|]; simpl; auto|].
     destruct (mem k (p_cands P)) eqn:E2; simpl in Hsafe; [|inv_pair; split; [repeat split; auto|]; simpl; auto].
-    inv_pair. split; [|simpl; auto]. repeat split; simpl.
+    rewrite chk_reg_keeps in Hrun. inv_pair. split; [|simpl; auto]. repeat split; simpl.
     + apply Hclos; [now apply mem_In|]. intro H. apply mem_In in H. congruence.
     + apply in_or_app. now left.
     + destruct Hs as [Hs|[Hs Hu]]; [now left|]. right. rewrite Hs in Hsafe. auto.
   - (* generic-mode setter *)
     inv_pair. split; [|simpl; auto]. repeat split; simpl; auto.
     destruct b; auto. right. split; auto.
+Qed.
+
+(* ---------------------------------------------------------------- registering a session: not a belief-resetting event *)
+Lemma register_keeps_belief : forall s k, belief (fst (fst (run_op P s (ORegister k)))) = belief s.
+Proof.
+  intros s k. simpl. destruct (mem k (reg s)); simpl; auto. destruct (mem k (p_cands P)); simpl; auto.
+  now rewrite chk_reg_keeps.
+Qed.
+
+(* with the belief set, registering is outside the finding's region wherever the device is *)
+Lemma register_safe_believed : forall s k, belief s <> None -> op_safe s (ORegister k) = true.
+Proof.
+  intros s k H. unfold op_safe. destruct (mem k (reg s) || negb (mem k (p_cands P))); auto.
+  destruct (belief s); congruence.
+Qed.
+
+(* operations that neither reset the belief nor add a level: never in the finding's region *)
+Definition plain_op (o : op) : bool :=
+  match o with ORegister _ | OSetGeneric true => false | _ => true end.
+
+Lemma hist_safe_plain : forall h s, forallb plain_op h = true -> hist_safe s h = true.
+Proof.
+  induction h as [|o r IH]; intros s H; simpl; auto. simpl in H. apply andb_true_iff in H. destruct H as [H1 H2].
+  rewrite IH by auto. destruct o as [| | | | | |[|]]; simpl in *; auto; discriminate.
 Qed.
 
 (* ---------------------------------------------------------------- every history *)
@@ -405,11 +437,137 @@ Proof.
   constructor; [split; auto; now apply Inv_belief_sound|]. now apply IH.
 Qed.
 
+(* from ANY state with the belief set — the device in exec, privilege_exec, configuration or INSIDE a configuration
+   session — a session is registered and then any commands / configs at any level (the new session, the one the device
+   sits in, ...) / acquire_priv / send_interactive follow: full specification, no region hypothesis *)
+Theorem register_in_level_ok : forall s k h,
+  Inv s -> belief s <> None -> forallb op_neutral h = true -> forallb plain_op h = true ->
+  Forall step_good (run_hist P s (ORegister k :: h)).
+Proof.
+  intros s k h HI Hb Hn Hp. apply hist_ok; auto. cbn [hist_safe].
+  rewrite (register_safe_believed s k Hb). cbn [andb]. now apply hist_safe_plain.
+Qed.
+
 Lemma init_Inv : forall m0, In m0 (p_login P) -> Inv (init P m0).
 Proof.
   intros m0 H. destruct chk_parts as (Hb & _ & Hl & _). destruct (Hl m0 H) as [H1 H2].
   repeat split; simpl; auto. right. auto.
 Qed.
+
+(* ---------------------------------------------------------------- histories that never switch generic mode on *)
+(* the only operation that resets a belief the driver has is switching generic-driver mode on: every other operation
+   — registering a session included — leaves the belief set *)
+Definition no_generic_on (o : op) : bool := match o with OSetGeneric true => false | _ => true end.
+
+Lemma believed_step : forall s o s' seg res,
+  Inv s -> belief s <> None -> op_neutral o = true -> no_generic_on o = true -> run_op P s o = (s', seg, res) ->
+  belief s' <> None.
+Proof.
+  intros s o s' seg res [Hr [Hm Hs]] Hb Hn Hg Hrun.
+  destruct (reg_parts (reg s) Hr) as (Hdef & Hcfg & _ & _ & _ & Hclos & _).
+  destruct o as [|ls stop|ls stop priv|d|ls priv|k|b]; simpl in Hrun, Hn.
+  - destruct (acquire_sound (reg s) (belief s) (mode s) (p_default P) Hr Hm Hdef Hs) as [seg1 [E1 U1]].
+    rewrite E1 in Hrun.
+    destruct chk_parts as (_ & _ & _ & Hopen).
+    destruct (send_lines_neutral KOpen false (map (fun l => (l, false)) (p_open P)) (p_default P)) as [fl E2].
+    { now rewrite ulines_neutral_plain. }
+    rewrite E2 in Hrun. inv_pair. simpl. discriminate.
+  - destruct (generic s) eqn:G.
+    + destruct (send_lines_neutral KUser stop ls (mode s) Hn) as [fl E2]. rewrite E2 in Hrun. inv_pair. simpl. auto.
+    + destruct (ensure_sound (reg s) (belief s) (mode s) (p_default P) Hr Hm Hdef Hs) as [seg1 [E1 U1]].
+      rewrite E1 in Hrun.
+      destruct (send_lines_neutral KUser stop ls (p_default P) Hn) as [fl E2]. rewrite E2 in Hrun. inv_pair.
+      simpl. discriminate.
+  - destruct (generic s) eqn:G.
+    + inv_pair. auto.
+    + unfold send_configs_core in Hrun.
+      set (lv := match priv with Some p => p | None => p_cfg P end).
+      assert (Hcase : (mem lv (reg s) = true /\
+                       (match priv with Some p => if mem p (reg s) then true else false | None => true end = true))
+                      \/ (mem lv (reg s) = false /\ exists p, priv = Some p /\ mem p (reg s) = false)).
+      { destruct priv as [p|]; subst lv; simpl.
+        - destruct (mem p (reg s)) eqn:E; [left; auto | right; split; auto; now exists p].
+        - left. split; auto. now apply mem_In. }
+      destruct Hcase as [[Hlv _]|[Hlv [p [-> Hp]]]].
+      * assert (Hin : In lv (reg s)) by now apply mem_In.
+        destruct (ensure_sound (reg s) (belief s) (mode s) lv Hr Hm Hin Hs) as [seg1 [E1 U1]].
+        destruct (send_lines_neutral KUser stop ls lv Hn) as [fl E2].
+        assert (Hcore : (match priv with
+                 | Some p => if mem p (reg s)
+                             then match ensure P (reg s) (belief s) (mode s) p with
+                                  | (b1, m1, seg1, Ok) => match send_lines P KUser stop m1 ls with
+                                                          | (m2, seg2, fl) => (b1, m2, seg1 ++ seg2, Ok, fl) end
+                                  | (b1, m1, seg1, e) => (b1, m1, seg1, e, false) end
+                             else (belief s, mode s, [], PrivErr, false)
+                 | None => match ensure P (reg s) (belief s) (mode s) (p_cfg P) with
+                           | (b1, m1, seg1, Ok) => match send_lines P KUser stop m1 ls with
+                                                   | (m2, seg2, fl) => (b1, m2, seg1 ++ seg2, Ok, fl) end
+                           | (b1, m1, seg1, e) => (b1, m1, seg1, e, false) end
+                 end) = (Some lv, lv, seg1 ++ map (fun l => (lv, l, KUser)) (sent stop ls), Ok, fl)).
+        { destruct priv as [p|]; subst lv; simpl in *; [rewrite Hlv|]; rewrite E1, E2; reflexivity. }
+        rewrite Hcore in Hrun. clear Hcore.
+        destruct (stop && fl).
+        -- destruct (abort_sound (reg s) lv Hr Hin) as [m' [seg3 [E3 [Hm' U3]]]]. rewrite E3 in Hrun. inv_pair.
+           simpl. discriminate.
+        -- inv_pair. simpl. discriminate.
+      * subst lv. simpl in Hlv. rewrite Hp in *. inv_pair. auto.
+  - destruct (mem d (reg s)) eqn:E.
+    + assert (Hd : In d (reg s)) by now apply mem_In.
+      destruct (acquire_sound (reg s) (belief s) (mode s) d Hr Hm Hd Hs) as [seg1 [E1 U1]].
+      rewrite E1 in Hrun. inv_pair. simpl. discriminate.
+    + rewrite acquire_invalid in Hrun by (intro Hd; apply mem_In in Hd; congruence). inv_pair. simpl. auto.
+  - assert (Hn' : ulines_neutral (map (fun l => (l, false)) ls) = true) by now rewrite ulines_neutral_plain.
+    destruct priv as [p|].
+    + destruct (mem p (reg s)) eqn:E.
+      * assert (Hp : In p (reg s)) by now apply mem_In.
+        destruct (ensure_sound (reg s) (belief s) (mode s) p Hr Hm Hp Hs) as [seg1 [E1 U1]]. rewrite E1 in Hrun.
+        destruct (send_lines_neutral KUser false _ p Hn') as [fl E2]. rewrite E2 in Hrun. inv_pair. simpl. discriminate.
+      * inv_pair. simpl. auto.
+    + destruct (generic s) eqn:G.
+      * destruct (send_lines_neutral KUser false _ (mode s) Hn') as [fl E2]. rewrite E2 in Hrun. inv_pair. simpl. auto.
+      * destruct (ensure_sound (reg s) (belief s) (mode s) (p_default P) Hr Hm Hdef Hs) as [seg1 [E1 U1]].
+        rewrite E1 in Hrun.
+        destruct (send_lines_neutral KUser false _ (p_default P) Hn') as [fl E2]. rewrite E2 in Hrun. inv_pair.
+        simpl. discriminate.
+  - destruct (mem k (reg s)) eqn:E1; [inv_pair; auto|].
+    destruct (mem k (p_cands P)) eqn:E2; [|inv_pair; auto].
+    rewrite chk_reg_keeps in Hrun. inv_pair. simpl. auto.
+  - destruct b; [discriminate|]. inv_pair. simpl. auto.
+Qed.
+
+Lemma hist_safe_believed : forall h s,
+  Inv s -> belief s <> None -> forallb op_neutral h = true -> forallb no_generic_on h = true -> hist_safe s h = true.
+Proof.
+  induction h as [|o r IH]; intros s HI Hb Hn Hg; simpl; auto.
+  simpl in Hn, Hg. apply andb_true_iff in Hn. destruct Hn as [Hn1 Hn2]. apply andb_true_iff in Hg. destruct Hg as [Hg1 Hg2].
+  assert (Hs : op_safe s o = true).
+  { destruct o as [| | | | |k|[|]]; simpl in *; auto; try discriminate.
+    destruct (mem k (reg s) || negb (mem k (p_cands P))); auto. destruct (belief s); congruence. }
+  rewrite Hs. simpl. destruct (run_op P s o) as [[s' seg] res] eqn:E. simpl.
+  destruct (step_ok s o s' seg res HI Hn1 Hs E) as [HI' _].
+  apply IH; auto. exact (believed_step s o s' seg res HI Hb Hn1 Hg1 E).
+Qed.
+
+(* open, then ANY history that never switches generic-driver mode on — sessions registered at any moment, in any level,
+   inside another session included: full specification, no region hypothesis *)
+Theorem levels_without_generic_on : forall m0 h,
+  In m0 (p_login P) -> forallb op_neutral h = true -> forallb no_generic_on h = true ->
+  Forall step_good (run_hist P (init P m0) (OOpen :: h)).
+Proof.
+  intros m0 h Hl Hn Hg. apply hist_ok; [now apply init_Inv | exact Hn |].
+  cbn [hist_safe op_safe andb]. destruct (run_op P (init P m0) OOpen) as [[s' seg] res] eqn:E. cbn [fst].
+  destruct (step_ok (init P m0) OOpen s' seg res (init_Inv m0 Hl) eq_refl eq_refl E) as [HI' _].
+  apply hist_safe_believed; auto.
+  (* open leaves the belief set *)
+  clear Hn Hg. pose proof (init_Inv m0 Hl) as [Hr [Hm Hs]].
+  destruct (reg_parts _ Hr) as (Hdef & _).
+  simpl in E. destruct (acquire_sound _ _ _ (p_default P) Hr Hm Hdef Hs) as [seg1 [E1 _]]. simpl in E1. rewrite E1 in E.
+  destruct chk_parts as (_ & _ & _ & Hopen).
+  destruct (send_lines_neutral KOpen false (map (fun l => (l, false)) (p_open P)) (p_default P)) as [fl E2].
+  { now rewrite ulines_neutral_plain. }
+  rewrite E2 in E. inversion E; subst. simpl. discriminate.
+Qed.
+
 
 Theorem levels_partial : forall m0 h,
   In m0 (p_login P) -> forallb op_neutral h = true -> hist_safe (init P m0) h = true ->
@@ -701,7 +859,7 @@ Definition xr_like : platform :=
     [mkLevel None 0 0 0 false; mkLevel (Some 0) 1 2 1 false; mkLevel (Some 0) 3 2 1 false]
     3 0 1 (AbSend 6 0) [4; 5]
     [(0, 1, 1); (0, 3, 2); (1, 2, 0); (1, 6, 0); (2, 2, 0); (2, 6, 0)]
-    [0] [] [[0; 1; 2]] true.
+    [0] [] [[0; 1; 2]] true true.
 
 Example xr_like_checked : platform_check xr_like = true.
 Proof. vm_compute. reflexivity. Qed.
@@ -774,7 +932,7 @@ Qed.
    fails the check, and the belief is wrong after an interruption *)
 Definition set_reset_first (P : platform) (b : bool) : platform :=
   mkPlatform (p_levels P) (p_base P) (p_default P) (p_cfg P) (p_abort P) (p_open P) (p_dev P) (p_login P)
-             (p_cands P) (p_regs P) b.
+             (p_cands P) (p_regs P) b (p_reg_keeps P).
 
 Definition xr_like_after : platform := set_reset_first xr_like false.
 
@@ -842,3 +1000,95 @@ Example xr_int_history_runs :
   = [([], Ok, Some 0, 0); ([(1, 100); (1, 101)], Interrupted, Some 1, 1); ([], Interrupted, None, 0);
      ([(0, 103)], Ok, Some 0, 0); ([], Interrupted, None, 0); ([(1, 104)], Ok, Some 1, 1)].
 Proof. vm_compute. reflexivity. Qed.
+
+(* ---------------------------------------------------------------- registering a session while in a session *)
+(* NX-OS's shape: privilege_exec, configuration, and two configuration sessions with ONE prompt pattern *)
+Definition nx_like : platform :=
+  mkPlatform
+    [mkLevel None 0 0 0 false; mkLevel (Some 0) 1 2 1 false; mkLevel (Some 0) 3 2 2 true; mkLevel (Some 0) 4 2 2 true]
+    2 0 1 (AbSess 6 0) [5]
+    [(0, 1, 1); (0, 3, 2); (0, 4, 3); (1, 2, 0); (2, 2, 0); (2, 6, 0); (3, 2, 0); (3, 6, 0)]
+    [0] [2; 3] [[0; 1]; [0; 1; 2]; [0; 1; 3]; [0; 1; 2; 3]; [0; 1; 3; 2]] true true.
+
+Example nx_like_checked : platform_check nx_like = true.
+Proof. vm_compute. reflexivity. Qed.
+
+(* open . register A . send_configs(A) . register B WHILE IN A . send_configs(B) . send_configs(A) . send_commands .
+   send_configs(B, failing line, stop_on_failed: abort) . send_configs() *)
+Definition nx_register_history : list op :=
+  [OOpen; ORegister 2; OSendConfigs [(100, false)] false (Some 2); ORegister 3; OSendConfigs [(101, false)] false (Some 3);
+   OSendConfigs [(102, false)] false (Some 2); OSendCommands [(103, false)] false;
+   OSendConfigs [(104, false); (150, true); (105, false)] true (Some 3); OSendConfigs [(106, false)] false None].
+
+Example nx_register_history_premises :
+  forallb (op_neutral nx_like) nx_register_history = true /\ hist_safe nx_like (init nx_like 0) nx_register_history = true.
+Proof. split; vm_compute; reflexivity. Qed.
+
+(* the belief A is what sends the driver A -> privilege_exec -> B although B's pattern matches A's prompt *)
+Example nx_register_history_runs :
+  map (fun t => match t with (_, _, seg, res, s') => (map fst seg, res, belief s', mode s') end)
+      (run_hist nx_like (init nx_like 0) nx_register_history)
+  = [([(0, 5)], Ok, Some 0, 0); ([], Ok, Some 0, 0); ([(0, 3); (2, 100)], Ok, Some 2, 2); ([], Ok, Some 2, 2);
+     ([(2, 2); (0, 4); (3, 101)], Ok, Some 3, 3); ([(3, 2); (0, 3); (2, 102)], Ok, Some 2, 2);
+     ([(2, 2); (0, 103)], Ok, Some 0, 0); ([(0, 4); (3, 104); (3, 150); (3, 6)], Ok, Some 0, 0);
+     ([(0, 1); (1, 106)], Ok, Some 1, 1)].
+Proof. vm_compute. reflexivity. Qed.
+
+(* the REGISTER fact is what this rests on: the same table with a registration that forgets the level fails the check,
+   and the configs for B run inside A *)
+Definition set_reg_keeps (P : platform) (b : bool) : platform :=
+  mkPlatform (p_levels P) (p_base P) (p_default P) (p_cfg P) (p_abort P) (p_open P) (p_dev P) (p_login P)
+             (p_cands P) (p_regs P) (p_reset_first P) b.
+
+Definition nx_like_forgets : platform := set_reg_keeps nx_like false.
+
+Definition nx_register_witness : list op :=
+  [OOpen; ORegister 2; OSendConfigs [(100, false)] false (Some 2); ORegister 3; OSendConfigs [(101, false)] false (Some 3)].
+
+Example nx_register_witness_premises :
+  forallb (op_neutral nx_like_forgets) nx_register_witness = true
+  /\ hist_safe nx_like_forgets (init nx_like_forgets 0) nx_register_witness = true.
+Proof. split; vm_compute; reflexivity. Qed.
+
+Example nx_register_witness_runs_in_A :
+  nth 4 (map (fun t => match t with (_, _, seg, res, s') => (seg, res, belief s', mode s') end)
+             (run_hist nx_like_forgets (init nx_like_forgets 0) nx_register_witness)) ([], Ok, None, 0)
+  = ([(2, 101, KUser)], Ok, Some 3, 2).
+Proof. vm_compute. reflexivity. Qed.
+
+(* the levels statement for tables that pass the check when the register fact is ignored *)
+Definition C03_without_register_fact : Prop :=
+  forall P, platform_check (set_reg_keeps P true) = true -> forall m0 h,
+    In m0 (p_login P) -> forallb (op_neutral P) h = true -> hist_safe P (init P m0) h = true ->
+    Forall (step_good P) (run_hist P (init P m0) h).
+
+Theorem without_register_fact_refuted : ~ C03_without_register_fact.
+Proof.
+  intro H. destruct nx_register_witness_premises as (N & S).
+  specialize (H nx_like_forgets nx_like_checked 0 nx_register_witness (or_introl eq_refl) N S).
+  pose proof (proj1 (Forall_nth _ _) H 4 (init nx_like 0, OOpen, [], Ok, init nx_like 0)) as H4.
+  vm_compute in H4. specialize (H4 (le_n _)). destruct H4 as [[_ H4] _]. discriminate H4.
+Qed.
+
+Example nx_like_forgets_fails_check : platform_check nx_like_forgets = false.
+Proof. vm_compute. reflexivity. Qed.
+
+(* corollaries used by props/C03.v *)
+Theorem register_keeps_belief_checked : forall P, platform_check P = true -> forall s k,
+  belief (fst (fst (run_op P s (ORegister k)))) = belief s.
+Proof. intros P Hc. exact (register_keeps_belief P Hc). Qed.
+
+Theorem register_in_level : forall P, platform_check P = true -> forall s k h,
+  Inv P s -> belief s <> None -> forallb (op_neutral P) h = true -> forallb plain_op h = true ->
+  Forall (step_good P) (run_hist P s (ORegister k :: h)).
+Proof. intros P Hc. exact (register_in_level_ok P Hc). Qed.
+
+Theorem levels_no_generic_on : forall P, platform_check P = true -> forall m0 h,
+  In m0 (p_login P) -> forallb (op_neutral P) h = true -> forallb no_generic_on h = true ->
+  Forall (step_good P) (run_hist P (init P m0) (OOpen :: h)).
+Proof. intros P Hc. exact (levels_without_generic_on P Hc). Qed.
+
+(* its premises are satisfied by the history above (sessions registered at login level and inside a session) *)
+Example nx_register_history_no_generic_on :
+  nx_register_history = OOpen :: tl nx_register_history /\ forallb no_generic_on (tl nx_register_history) = true.
+Proof. split; vm_compute; reflexivity. Qed.
